@@ -245,7 +245,7 @@ func runMidFrame(sc core.Scenario, r *core.R) {
 		kind = wsproxy.RST
 	}
 	fired := make(chan struct{})
-	env.Px.Arm(&wsproxy.Fault{Kind: kind, Dir: wsproxy.S2C, Pos: pos, Match: func(fi wsproxy.FrameInfo) bool { return fi.Opcode == 0 }, OnFire: func() { close(fired) }})
+	env.Px.Arm(&wsproxy.Fault{Kind: kind, Dir: wsproxy.S2C, Pos: pos, Match: func(fi wsproxy.FrameInfo) bool { return fi.Len > 10000 || (variant >= 2 && fi.Opcode == 0) }, OnFire: func() { close(fired) }})
 	ctx := context.Background()
 	tokA := Tok("m")
 	a := Go(tokA, func() (string, error) { return cl.Big(ctx, tokA, 20000) })
